@@ -191,6 +191,55 @@ func sequential(p param) string {
 	return strings.Join(res, "\n")
 }
 
+// control runs the sequential calls (the reference of a job) twice on the test goroutine. fail != "": the reference
+// cannot be had from the tree under test (the calls panic, call log.Fatal, or do not answer the same twice): that is
+// reported as a violation by the caller and the job is skipped.
+func control(p param) (want string, class string, fail string) {
+	run := func() (out string, msg string) {
+		defer func() {
+			if e := recover(); e != nil {
+				msg = fmt.Sprintf("%v (%T)", e, e) // vsched's exit sentinel {status} = log.Fatal / os.Exit of the implementation
+			}
+		}()
+		return sequential(p), ""
+	}
+	a, msg := run()
+	if msg != "" {
+		return "", "sequential-calls-panic", "the calls made one after the other on the test goroutine end with: " + msg
+	}
+	b, msg := run()
+	if msg != "" {
+		return "", "sequential-calls-panic", "the calls made one after the other a second time end with: " + msg
+	}
+	if a != b {
+		g, w := strings.Split(b, "\n"), strings.Split(a, "\n")
+		for i := range w {
+			if i < len(g) && g[i] != w[i] {
+				return "", "sequential-calls-not-deterministic", fmt.Sprintf("the same sequential calls answer differently the second time: thread %d\n  %s\nthen\n  %s", i, w[i], g[i])
+			}
+		}
+		return "", "sequential-calls-not-deterministic", "the same sequential calls answer differently the second time"
+	}
+	return a, "", ""
+}
+
+// explore runs vsched.Explore. div != "": the explorer found that one schedule, executed twice, does not give the same
+// execution (its own "replay ... diverged" panics): the code under test keeps state from one execution to the next or is
+// not deterministic. That is a verdict on the tree (reported by the caller), not an engine error; the explorer is not
+// used any further by this shard.
+func explore(cfg vsched.Config, body func(x *vsched.Exec)) (st *vsched.Stats, div string) {
+	defer func() {
+		if e := recover(); e != nil {
+			s, ok := e.(string)
+			if !ok || !strings.HasPrefix(s, "vsched: replay") {
+				panic(e)
+			}
+			st, div = nil, s
+		}
+	}()
+	return vsched.Explore(cfg, body), ""
+}
+
 func TestVerifKern(t *testing.T) {
 	log.SetOutput(io.Discard)
 	log.StandardLogger().ExitFunc = vsched.Exit
@@ -200,11 +249,33 @@ func TestVerifKern(t *testing.T) {
 	}
 	r := verifkit.New(map[string]string{"pealign": "C08", "kmer": "C19", "seq": "C07", "tax": "C14"}[kern])
 	defer r.Write()
-	taxo()
+	if kern == "tax" {
+		// the shared taxonomy is built once, outside the explored executions
+		msg := ""
+		func() {
+			defer func() {
+				if e := recover(); e != nil {
+					msg = fmt.Sprint(e)
+				}
+			}()
+			taxo()
+		}()
+		if msg != "" {
+			r.Eval(1)
+			r.Violate("tax/control-run/taxonomy-cannot-be-built", "building the 8-taxon taxonomy used by every job ends with: "+msg, param{Kern: kern, Threads: 2, Mode: "delay"})
+			return
+		}
+	}
 
+	// check: the judge of a job, built from its control run; want == nil: no reference (reported here), skip the job
 	check := func(p param) func(x *vsched.Exec) string {
 		vsched.PoolChoices = false
-		want := sequential(p)
+		want, class, fail := control(p)
+		if fail != "" {
+			r.Eval(1)
+			r.Violate(p.Kern+"/control-run/"+class, fmt.Sprintf("kernel family %s variant=%d threads=%d: %s", p.Kern, p.Variant, p.Threads, fail), p)
+			return nil
+		}
 		return func(x *vsched.Exec) string {
 			if x.Outcome() != "" {
 				return x.Outcome() + "|" + x.Detail()
@@ -230,6 +301,9 @@ func TestVerifKern(t *testing.T) {
 		}
 		found := 0
 		chk := check(p)
+		if chk == nil {
+			return
+		}
 		cfg := vsched.Config{Name: p.Kern, DelayBounding: true, Preemptions: 1, Deviations: 1, Policy: p.Policy, Horizon: 100000, MaxExec: 100000}
 		cfg.Check = func(x *vsched.Exec) string {
 			m := chk(x)
@@ -239,8 +313,12 @@ func TestVerifKern(t *testing.T) {
 			return m
 		}
 		vsched.PoolChoices = p.Pool
-		st := vsched.Explore(cfg, func(x *vsched.Exec) { x.Obs = body(p) })
+		st, div := explore(cfg, func(x *vsched.Exec) { x.Obs = body(p) })
 		vsched.PoolChoices = false
+		if div != "" {
+			r.Violate(p.Kern+"/control-run/execution-not-reproducible", div, p)
+			return
+		}
 		r.Eval(st.Executions)
 		if found > 0 {
 			r.Violate(p.Kern+"/concurrent-calls/replay", fmt.Sprintf("%d executions differ from the sequential answers", found), p)
@@ -275,19 +353,31 @@ func TestVerifKern(t *testing.T) {
 		if r.Expired() {
 			break
 		}
-		if k < 1 {
-			r.Sample(map[string]any{"param": p, "sequential": sequential(p)})
-		}
+		r.Count("kern_jobs_submitted", 1)
 		bound := 1
 		if verifkit.Thorough() {
 			bound = 2
 		}
 		chk := check(p)
+		if chk == nil {
+			continue
+		}
+		if k < 1 {
+			if want, _, fail := control(p); fail == "" {
+				r.Sample(map[string]any{"param": p, "sequential": want})
+			}
+		}
 		cfg := vsched.Config{Name: p.Kern, DelayBounding: p.Mode == "delay", Full: p.Mode == "full", Preemptions: bound, Deviations: 1,
 			Policy: p.Policy, Horizon: 100000, MaxExec: 150000, Expired: r.Expired, Check: chk}
 		vsched.PoolChoices = p.Pool
-		st := vsched.Explore(cfg, func(x *vsched.Exec) { x.Obs = body(p) })
+		st, div := explore(cfg, func(x *vsched.Exec) { x.Obs = body(p) })
 		vsched.PoolChoices = false
+		if div != "" {
+			r.Eval(1)
+			r.Violate(p.Kern+"/control-run/execution-not-reproducible", fmt.Sprintf("kernel family %s variant=%d threads=%d mode=%s policy=%d: the same schedule executed twice does not give the same execution: %s", p.Kern, p.Variant, p.Threads, p.Mode, p.Policy, div), p)
+			r.Cap("executions of the tree under test are not reproducible: the exploration of this shard stops")
+			return
+		}
 		r.Eval(st.Executions)
 		r.Trace(st.Executions)
 		r.Trans(st.Points)
@@ -321,5 +411,6 @@ func TestVerifKern(t *testing.T) {
 			r.Violate(key, fmt.Sprintf("kernel family %s variant=%d threads=%d mode=%s policy=%d schedule=%v: %s", p.Kern, p.Variant, p.Threads, p.Mode, p.Policy, v.Choices, parts[1]), q)
 		}
 	}
-	r.RequireNonVacuous("kern_outcome_completed")
+	// guard on what the harness did (kern_outcome_* depend on how the executions of the tree under test end)
+	r.RequireNonVacuous("kern_jobs_submitted")
 }
